@@ -7,6 +7,7 @@ k=1: the property: a tree parsed from arbitrary markup is walked and serialized 
 import json
 
 import gen_markup
+import trees
 import tokens as T
 from framework import Plugin
 
@@ -231,7 +232,8 @@ class C08(Plugin):
                 for body in ("inner", "<g>x</g>y", ""):
                     m = "<%s><%s a=b>%s</%s>after</%s>" % (root, nm, body, nm, root)
                     for o in (base, sol, sol2):
-                        out.append({"k": 1, "opts": o, "markup": m, "tree": "dom" if i % 2 else "etree", "fragment": i % 3 == 0})
+                        out.append({"k": 1, "opts": o, "markup": m, "tree": "dom" if i % 2 else "etree", "fragment": i % 3 == 0,
+                                    "reparse": True})
                         i += 1
         return out
 
@@ -266,7 +268,25 @@ class C08(Plugin):
             txt = s.render([T.from_json(t) for t in stream])
         except KeyError:
             return [1]
+        if case.get("reparse") and not s.errors:
+            # these corpus shapes must also survive a re-parse: the tree of the output equals the tree that was written
+            import html5lib
+            from html5lib.serializer import HTMLSerializer
+
+            def dump(src):
+                p = html5lib.HTMLParser(tree=html5lib.getTreeBuilder("dom"))
+                d = p.parseFragment(src) if case["fragment"] else p.parse(src)
+                return repr(trees.sort_attrs(trees.coalesce(trees.dom_forest(d))))      # direct traversal, no walker
+            self._reparse = (dump(case["markup"]), dump(txt))
+        else:
+            self._reparse = None
         return [0, txt, list(s.errors)]
+
+    def oracle(self, case, out):
+        r = getattr(self, "_reparse", None)
+        if r is not None and r[0] != r[1]:
+            return [("reparse-tree-differs", "written from %r, read back as %r" % r)]
+        return []
 
     def batch_oracle(self, cases, results, run_model):
         import sexp
